@@ -150,7 +150,9 @@ impl PieceType for Pawn {
             // pawns from their squares and placing ours on the target square doesn't expose our king
             // to an enemy slider (this covers pins of either pawn and the case where both pawns
             // leave the king's rank at once)
-            if check_mask.contains(capture_pawn) || (check_mask & dest).any() {
+            if (dest & mask).any()
+                && (check_mask.contains(capture_pawn) || (check_mask & dest).any())
+            {
                 let enemy = board.raw[!board.turn];
                 let rooks = (board.raw[Piece::Rook] | board.raw[Piece::Queen]) & enemy;
                 let bishops = (board.raw[Piece::Bishop] | board.raw[Piece::Queen]) & enemy;
@@ -277,7 +279,7 @@ impl King {
                         .iter()
                         .all(|dest| board.is_legal_king_position(dest))
                     {
-                        moves ^= castle_tiles & chess_lookup::CASTLE_MOVES
+                        moves ^= castle_tiles & chess_lookup::CASTLE_MOVES & mask
                     }
                 }
             }
